@@ -170,51 +170,73 @@ Fixpoint lookup (x:nat) (e:env) : option sym :=
   | (y, s) :: r => if Nat.eqb x y then Some s else lookup x r
   end.
 
-(* rule: the name is declared; it is not a run-time local of an enclosing function *)
-Definition visible_ok (fd:nat) (s:sym) : bool :=
-  match sar s, sq s with
-  | Some _, _ => true                 (* functions live in static storage *)
-  | None, QComptime => true           (* compile-time symbols need no closure *)
-  | None, _ => Nat.eqb (sfd s) fd
+(* ---- rule, stated on its own terms (no symbol records, no depth counters): every declaration in scope is
+        either a function of some arity or a variable with its qualifier and its OWNER, the path of names of
+        the functions enclosing the declaration (innermost first).
+        - a variable may be read where its owner is the current function path, or anywhere when it is comptime;
+        - it may be assigned only if it is a plain variable owned by the current function;
+        - functions may be called from anywhere, with at most as many arguments as parameters. *)
+Inductive decl := DVar (q:qual) (owner:list nat) | DFun (arity:nat).
+Definition renv := list (nat * decl).
+
+Fixpoint rlookup (x:nat) (e:renv) : option decl :=
+  match e with
+  | [] => None
+  | (y, d) :: r => if Nat.eqb x y then Some d else rlookup x r
   end.
 
-Definition param_env (fd:nat) (ps:list nat) (e:env) : env :=
-  fold_left (fun acc p => (p, mksym QVar None fd) :: acc) ps e.
+Fixpoint path_eqb (a b:list nat) : bool :=
+  match a, b with
+  | [], [] => true
+  | x :: r, y :: r' => Nat.eqb x y && path_eqb r r'
+  | _, _ => false
+  end.
 
-Fixpoint rname_stmt (fd:nat) (e:env) (s:stmt) {struct s} : bool :=
+Definition use_ok (fp:list nat) (d:decl) : bool :=
+  match d with
+  | DFun _ => true
+  | DVar QComptime _ => true
+  | DVar _ o => path_eqb o fp
+  end.
+
+Definition assign_ok (fp:list nat) (d:decl) : bool :=
+  match d with
+  | DVar QVar o => path_eqb o fp
+  | _ => false
+  end.
+
+Definition call_ok (n:nat) (d:decl) : bool :=
+  match d with DFun a => Nat.leb n a | DVar _ _ => false end.
+
+Definition rparams (fp:list nat) (ps:list nat) (e:renv) : renv :=
+  fold_left (fun acc p => (p, DVar QVar fp) :: acc) ps e.
+
+Fixpoint rname_stmt (fp:list nat) (e:renv) (s:stmt) {struct s} : bool :=
   match s with
-  | Assign x | AssignF x =>
-    match lookup x e with
-    | Some y => visible_ok fd y && match sar y, sq y with None, QVar => true | _, _ => false end
-    | None => false
-    end
-  | Use x | UseF x => match lookup x e with Some y => visible_ok fd y | None => false end
-  | Call f n =>
-    match lookup f e with
-    | Some y => match sar y with Some a => Nat.leb n a | None => false end
-    | None => false
-    end
-  | Func f ps b => rname_block (S fd) (param_env (S fd) ps ((f, mksym QVar (Some (length ps)) fd) :: e)) b
-  | Do b | While b | Repeat b | For b | Defer b => rname_block fd e b
-  | If t el => rname_block fd e t && rname_block fd e el
-  | Switch cs _ d => rname_cases fd e cs && rname_block fd e d
+  | Assign x | AssignF x => match rlookup x e with Some d => assign_ok fp d | None => false end
+  | Use x | UseF x => match rlookup x e with Some d => use_ok fp d | None => false end
+  | Call f n => match rlookup f e with Some d => call_ok n d | None => false end
+  | Func f ps b => rname_block (f :: fp) (rparams (f :: fp) ps ((f, DFun (length ps)) :: e)) b
+  | Do b | While b | Repeat b | For b | Defer b => rname_block fp e b
+  | If t el => rname_block fp e t && rname_block fp e el
+  | Switch cs _ d => rname_cases fp e cs && rname_block fp e d
   | _ => true
   end
-with rname_block (fd:nat) (e:env) (b:block) {struct b} : bool :=
+with rname_block (fp:list nat) (e:renv) (b:block) {struct b} : bool :=
   match b with
   | BNil => true
   | BCons _ s rest =>
-    rname_stmt fd e s &&
+    rname_stmt fp e s &&
     match s with
-    | Local x q => rname_block fd ((x, mksym q None fd) :: e) rest
-    | Func f ps _ => rname_block fd ((f, mksym QVar (Some (length ps)) fd) :: e) rest
-    | _ => rname_block fd e rest
+    | Local x q => rname_block fp ((x, DVar q fp) :: e) rest
+    | Func f ps _ => rname_block fp ((f, DFun (length ps)) :: e) rest
+    | _ => rname_block fp e rest
     end
   end
-with rname_cases (fd:nat) (e:env) (cs:cases) {struct cs} : bool :=
+with rname_cases (fp:list nat) (e:renv) (cs:cases) {struct cs} : bool :=
   match cs with
   | CNil => true
-  | CCons _ _ b rest => rname_block fd e b && rname_cases fd e rest
+  | CCons _ _ b rest => rname_block fp e b && rname_cases fp e rest
   end.
 
 (* analyzer: scope chain, each scope with its own symbol table and is_function flag *)
@@ -465,6 +487,88 @@ with alab_cases (fs:list lframe) (cs:cases) {struct cs} : errs :=
   | CCons _ _ b r => alab_block fs [] false b ++ alab_cases fs r
   end.
 
+(* ---- the rules at full strength (what the property says), beyond [rlab_*]:
+   (1) a label is not repeated ANYWHERE in one function (DESIGN: "labels unique per function"), whereas
+       [rlabel] - Lua 5.4's rule and the analyzer's - only forbids repeating a label that is visible
+       (declared earlier in an enclosing block);
+   (2) a goto never leaves a defer block (the binding rule is the one of [rgoto]) - 3b70c42 made this an
+       error for return/break/continue/in, goto is the remaining exit kind *)
+Fixpoint flabels_stmt (s:stmt) {struct s} : list nat :=
+  match s with
+  | Label l => [l]
+  | Func _ _ _ => []                                     (* another function *)
+  | Do b | While b | Repeat b | For b | Defer b => flabels_block b
+  | If t e => flabels_block t ++ flabels_block e
+  | Switch cs _ d => flabels_cases cs ++ flabels_block d
+  | _ => []
+  end
+with flabels_block (b:block) {struct b} : list nat :=
+  match b with BNil => [] | BCons _ s r => flabels_stmt s ++ flabels_block r end
+with flabels_cases (cs:cases) {struct cs} : list nat :=
+  match cs with CNil => [] | CCons _ _ b r => flabels_block b ++ flabels_cases r end.
+
+Fixpoint nodupn (l:list nat) : bool :=
+  match l with [] => true | x :: r => negb (existsb (Nat.eqb x) r) && nodupn r end.
+
+Fixpoint runiq_stmt (s:stmt) {struct s} : bool :=
+  match s with
+  | Func _ _ b => nodupn (flabels_block b) && runiq_block b
+  | Do b | While b | Repeat b | For b | Defer b => runiq_block b
+  | If t e => runiq_block t && runiq_block e
+  | Switch cs _ d => runiq_cases cs && runiq_block d
+  | _ => true
+  end
+with runiq_block (b:block) {struct b} : bool :=
+  match b with BNil => true | BCons _ s r => runiq_stmt s && runiq_block r end
+with runiq_cases (cs:cases) {struct cs} : bool :=
+  match cs with CNil => true | CCons _ _ b r => runiq_block b && runiq_cases r end.
+
+(* the frames strictly inside the frame the goto binds to (same binding rule as rgoto): none is a defer body *)
+Fixpoint leaves_defer_back (l:nat) (fs:list lframe) : option bool :=
+  match fs with
+  | [] => None
+  | f :: r =>
+    if has_label l (seen f) then Some false
+    else match leaves_defer_back l r with Some b => Some (b || isdefer f) | None => None end
+  end.
+
+Fixpoint leaves_defer_fwd (l:nat) (fs:list lframe) : option bool :=
+  match fs with
+  | [] => None
+  | f :: r =>
+    if has_label l (rest f) then Some false
+    else match leaves_defer_fwd l r with Some b => Some (b || isdefer f) | None => None end
+  end.
+
+Definition goto_leaves_defer (l:nat) (fs:list lframe) : bool :=
+  match leaves_defer_back l fs with
+  | Some b => b
+  | None => match leaves_defer_fwd l fs with Some b => b | None => false end
+  end.
+
+Fixpoint rgd_stmt (fs:list lframe) (s:stmt) {struct s} : bool :=
+  match s with
+  | Goto l => negb (goto_leaves_defer l fs)
+  | Func _ _ b => rgd_block [] [] false b
+  | Do b | While b | Repeat b | For b => rgd_block fs [] false b
+  | If t e => rgd_block fs [] false t && rgd_block fs [] false e
+  | Switch cs _ d => rgd_cases fs cs && rgd_block fs [] false d
+  | Defer b => rgd_block fs [] true b
+  | _ => true
+  end
+with rgd_block (fs:list lframe) (sn:list marker) (isd:bool) (b:block) {struct b} : bool :=
+  match b with
+  | BNil => true
+  | BCons _ s r =>
+    rgd_stmt (mkl sn (markers r) isd :: fs) s &&
+    rgd_block fs (match s with Label l => MLabel l :: sn | Defer _ => MDefer :: sn | _ => sn end) isd r
+  end
+with rgd_cases (fs:list lframe) (cs:cases) {struct cs} : bool :=
+  match cs with
+  | CNil => true
+  | CCons _ _ b r => rgd_block fs [] false b && rgd_cases fs r
+  end.
+
 (* ================================================================== D. constants *)
 Definition type_info (t:nat) : option (Z * bool) := nth_error gen_int_types t.   (* (bits, signed) *)
 
@@ -554,8 +658,11 @@ with asw_cases (cs:cases) {struct cs} : errs :=
 
 (* ================================================================== whole program = body of a function *)
 Definition rule_flow (p:block) : bool := rflow_block false false p.
-Definition rule_names (p:block) : bool := rname_block 1 [] p.
+Definition rule_names (p:block) : bool := rname_block [] [] p.
 Definition rule_labels (p:block) : bool := rlab_block [] [] false p.
+Definition rule_labels_unique (p:block) : bool := nodupn (flabels_block p) && runiq_block p.
+Definition rule_goto_stays_in_defer (p:block) : bool := rgd_block [] [] false p.
+Definition rule_labels_full (p:block) : bool := rule_labels p && rule_labels_unique p && rule_goto_stays_in_defer p.
 Definition rule_consts (p:block) : bool := rconst_block p.
 Definition rule_switch (p:block) : bool := rsw_block p.
 Definition rule_ok (p:block) : bool := rule_flow p && rule_names p && rule_labels p && rule_consts p && rule_switch p.
@@ -564,6 +671,8 @@ Definition off_flow (p:block) : errs := aflow_block [plain_scope; func_scope] fa
 Definition off_names (p:block) : errs := aname_block [mkn false []; mkn true []] p.
 Definition off_labels (p:block) : errs := alab_block [] [] false p.
 Definition off_consts (p:block) : errs := aconst_block p.
+Definition rule_ok_full (p:block) : bool :=
+  rule_flow p && rule_names p && rule_labels_full p && rule_consts p && rule_switch p.
 Definition off_switch (p:block) : errs := asw_block p.
 Definition offenders (p:block) : errs := off_flow p ++ off_names p ++ off_labels p ++ off_consts p ++ off_switch p.
 
